@@ -2,6 +2,7 @@ package harness
 
 import (
 	"io"
+	"os"
 
 	"github.com/rs/zerolog"
 	"github.com/rs/zerolog/log"
@@ -28,9 +29,20 @@ func (probeHook) Run(e *zerolog.Event, level zerolog.Level, msg string) {
 	if name, ok := probeMessages[msg]; ok {
 		sim.Count(name)
 	}
+	if logToStderr {
+		e.Str("task", sim.CurrentTask())
+	}
 }
+
+// SIM_LOG=1: debugging aid, semadb's own log lines on stderr tagged with the
+// simulated task (no effect on the schedule).
+var logToStderr = os.Getenv("SIM_LOG") != ""
 
 func installProbes() {
 	zerolog.SetGlobalLevel(zerolog.DebugLevel)
-	log.Logger = zerolog.New(io.Discard).Hook(probeHook{})
+	var w io.Writer = io.Discard
+	if logToStderr {
+		w = os.Stderr
+	}
+	log.Logger = zerolog.New(w).Hook(probeHook{})
 }
